@@ -343,7 +343,9 @@ the handler stores a tx only after the network's answer passed the Mempool test,
 `confChan`, the rebroadcast walks `DependencySort` of its copy; the verdict computation has
 exactly the four exits modelled by `verdict`, the threshold test is `>=` on
 `rejectCodes[Invalid] / len(replies)`, the most-rejected loop uses `>`; the reject arm records
-nothing for a peer that is not in `replies`, closes the peer after a recorded rejection, and
+nothing for a peer that is not in `replies`, closes the peer after a recorded rejection, a getdata
+entry makes its sender a replying peer whenever it names the transaction's hash (whatever tx inv
+type it carries: `PeerMsg.getdata` has no type), and
 `queryAllPeers` drops the messages of a closed peer. -/
 theorem C15_source_shape :
     storeAfterResult = true ∧ handlerDeletesOnConf = true ∧ rebroadcastSorts = true ∧
@@ -354,6 +356,7 @@ theorem C15_source_shape :
     thresholdOp = ">=" ∧ thresholdLhs = "numInvalid / numPeersResponded" ∧ thresholdRhs = "qo.invalidTxThreshold" ∧
     numInvalidDef = "float32(rejectCodes[pushtx.Invalid])" ∧ numPeersRespondedDef = "float32(len(replies))" ∧
     mostRejectedCmp = "count > mostRejectedCount" ∧
+    getdataMatch = "vec.Hash == txHash" ∧
     repliesKeyedByPeer = true ∧ rejectionsKeyedByPeer = true ∧
     rejectRequiresReply = true ∧ rejectClosesPeer = true ∧ closedPeerSkipped = true ∧
     thresholdNum * 5 = thresholdDen * 3 := by decide
